@@ -142,6 +142,19 @@ func init() {
 				cse.TimeoutMS = 120000
 				cs = append(cs, cse)
 			}
+			// config files with several rate-driven stages whose limit is reached in the first one
+			nfl := 6
+			if tier == "thorough" {
+				nfl = 40
+			}
+			for i := 0; i < nfl; i++ {
+				cc := pick(r, 1, 2, 4, 8)
+				cse := core.MkCase("C02", "filelimit", i, seed, map[string]int{"c": cc, "n": cc * (2 + r.IntN(5)), "stages": 2 + r.IntN(3), "stage_ms": 200 + r.IntN(200)})
+				cse.Race = i%2 == 0
+				cse.Procs = pick(r, 2, 16)
+				cse.TimeoutMS = 120000
+				cs = append(cs, cse)
+			}
 			nh := 6
 			if tier == "thorough" {
 				nh = 36
@@ -179,7 +192,7 @@ func init() {
 			}
 			return cs
 		},
-		Kinds:  map[string]core.RunFunc{"script": c02Script, "hook": c02Hook, "stress": c02Stress, "counter": c02Counter, "run": c02Run, "limitrace": c02LimitRace, "hammer": c02Hammer, "filecancel": c02FileCancel},
+		Kinds:  map[string]core.RunFunc{"script": c02Script, "hook": c02Hook, "stress": c02Stress, "counter": c02Counter, "run": c02Run, "limitrace": c02LimitRace, "hammer": c02Hammer, "filecancel": c02FileCancel, "filelimit": c02FileLimit},
 		Floors: map[string]int64{"script_steps": 500, "steps_superseding": 50, "steps_stop_with_pending": 10, "steps_limit_silent": 10, "hook_schedules_formed": 6, "stress_drops": 1000, "porcupine_histories": 400},
 	})
 }
@@ -972,6 +985,68 @@ func c02Hammer(c *core.Case, o *core.Outcome) {
 // c02FileCancel: a config-file run is stopped (cancel or max-duration) while a tick of a rate stage
 // is busy reporting a large superseded backlog as dropped. Whatever the run reports at its end must
 // be final: the dropped count must not move after Do returned.
+// c02FileLimit: a config file with 2-4 rate-driven stages (tick = concurrency, instant bodies, so nothing is
+// ever pending at a tick) whose max-iterations is reached early in the first stage. Whatever the later stages
+// request cannot start solely because of the limit: it must not be reported dropped.
+func c02FileLimit(c *core.Case, o *core.Outcome) {
+	var pp map[string]int
+	c.Params(&pp)
+	cc, N := pp["c"], pp["n"]
+	y := fmt.Sprintf("scenario: verifScenario\nlimits:\n  max-duration: 30s\n  concurrency: %d\n  max-iterations: %d\n  ignore-dropped: true\ndefault:\n  distribution: none\n  jitter: 0\nstages:\n", cc, N)
+	for i := 0; i < pp["stages"]; i++ {
+		y += fmt.Sprintf("- duration: %dms\n  mode: constant\n  rate: %d/20ms\n", pp["stage_ms"], cc)
+	}
+	l := engine.NewLog()
+	ctx, cancel := context.WithCancel(context.Background())
+	defer cancel()
+	var started, requested atomic.Int64
+	var backlogAtTick atomic.Bool
+	stagesTicked := map[int]int{}
+	var mu sync.Mutex
+	scenario := func(t *f1testing.T) f1testing.RunFn {
+		return func(t *f1testing.T) { started.Add(1) }
+	}
+	hooks := &engine.Hooks{StageRate: func(stage, k int, _ time.Time, v int) int {
+		// every request of the earlier ticks has started (or the limit is reached): nothing pending at this tick
+		if s, rq := started.Load(), requested.Load(); s < rq && s < int64(N) {
+			backlogAtTick.Store(true)
+		}
+		requested.Add(int64(v))
+		mu.Lock()
+		stagesTicked[stage]++
+		mu.Unlock()
+		return v
+	}}
+	r := engine.Execute(ctx, engine.Spec{Mode: "filestages", YAML: y, CompletionMS: 20000}, l, scenario, hooks, nil)
+	if r.NewErr != nil {
+		o.Inconc("harness: %v", r.NewErr)
+		return
+	}
+	su, fa, dr := resultCounts(r)
+	fams, _ := engine.Gather(r.Registry)
+	md := engine.IterationCounts(fams)["dropped"]
+	mu.Lock()
+	nst := len(stagesTicked)
+	mu.Unlock()
+	desc := fmt.Sprintf("file with %d constant stages of %d ms, rate %d/20ms, concurrency %d, max-iterations %d", pp["stages"], pp["stage_ms"], cc, cc, N)
+	o.Events = started.Load() + requested.Load()
+	if backlogAtTick.Load() {
+		o.Inconc("a tick found requests of an earlier tick still pending before the limit (slow machine): drops cannot be attributed (%s)", desc)
+		return
+	}
+	if su+fa != uint64(N) {
+		o.Inconc("limit not reached: %d started of %d (%s)", su+fa, N, desc)
+		return
+	}
+	if dr != 0 || md != 0 {
+		o.Violate("filelimit-drops", "max-iterations %d was reached with no request ever pending at a tick; the run reports %d dropped (metrics %d) - requests that could not start solely because of the limit (ticks seen in %d stages, %d requested in total) (%s)", N, dr, md, nst, requested.Load(), desc)
+		return
+	}
+	o.AddObs("filelimit_runs", 1)
+	o.Sig("filelimit:stages=%d:c=%d:ticked_stages=%d", pp["stages"], cc, nst)
+	o.Sample = map[string]any{"case": desc, "started": su + fa, "dropped": dr, "requested": requested.Load(), "stages_ticked": nst}
+}
+
 func c02FileCancel(c *core.Case, o *core.Outcome) {
 	var pp map[string]int
 	c.Params(&pp)
